@@ -13,7 +13,7 @@
 #include "execution_impl.h"
 #undef private
 #include "parallel.h"
-#include "/repo/src/execution_impl.cpp"
+#include "execution_impl.cpp"
 using namespace manifold;
 #ifndef VF_N
 #define VF_N 1100
